@@ -335,11 +335,16 @@ class StringDataEncoding(DataEncoding):
                                  "This is an error since strings must be an integer numbers of bytes.")
             parsed_string = raw_string_buffer.read_as_bytes(strlen_bits).decode(self._codec)
         elif self.termination_character is not None:
-            try:
-                tchar_byte_index = raw_string_buffer.index(self.termination_character)
-            except ValueError as exc:
+            # Only look for the termination character at character boundaries. For the fixed width multi-byte
+            # encodings the bytes of the termination character can also appear across two adjacent characters.
+            tchar_len = len(self.termination_character)
+            step = 1 if self.encoding == 'UTF-8' else tchar_len
+            for tchar_byte_index in range(0, len(raw_string_buffer) - tchar_len + 1, step):
+                if raw_string_buffer[tchar_byte_index:tchar_byte_index + tchar_len] == self.termination_character:
+                    break
+            else:
                 raise ValueError(f"Reached the end of the raw string buffer {raw_string_buffer} without finding the "
-                                 f"termination character {self.termination_character}") from exc
+                                 f"termination character {self.termination_character}")
             parsed_string = raw_string_buffer.read_as_bytes(tchar_byte_index * 8).decode(self._codec)
         else:
             # Indicates there is no further parsing. The raw string value is the whole string value.
